@@ -2,12 +2,12 @@
 from .gen_storage import Gen
 from . import common as C
 
-RULE = ('histories with a maintenance op (close/create/restore active, force_update with 4 predicates, free_excess, '
+RULE = ('histories with a maintenance op (close/create/restore active, force_update with 4 predicates, free_excess, offload_buffer(needed, level), fsyncdata, '
         'bg_* requests, restart) between data ops with probability 1/2, quiescence after each; every query (read, '
         'contains, read_all_with_deletion_marker, read_with) after every op; writes and deletes after each; '
         'distinct by (cfg line, multiset of (op, outcome class))')
 ASSUMPTIONS = ['index dumps complete at the quiescence points forced by hook H3 (explicit events in the model)',
-               'offload_buffer/fsyncdata act on filters and durability only: covered by C10 and C12']
+               'offload_buffer/fsyncdata are no-ops of the storage model (filters and durability only): any change of an answer after them is a divergence']
 
 
 def gen(tier, rng):
